@@ -47,9 +47,10 @@ pub const ENUM_SPAN: u64 = 3072;
 /// "...that can mislead a later one", end to end and for every cut point: positions in which
 /// the side to move has a forced mate in two (by the rules; taken from the C12 corpus), searched
 /// to depth 4 with node budget N for every N, and then searched again to depth 4 without a
-/// budget. The later search completes a 4-ply iteration, so - whatever completed subtrees the
-/// cache holds - it has to play a move that keeps the forced mate; it does after an uninterrupted
-/// first search and from an empty cache.
+/// budget. The later searches complete a 3-ply iteration, so - whatever completed subtrees the
+/// cache holds - they have to play a move that keeps a forced mate (C12's clause and C12's
+/// oracle: "lost" only when exhaustive analysis finds no mate within four more moves after some
+/// reply); they do after an uninterrupted first search and from an empty cache.
 pub const MATE_SPAN: u64 = 3072;
 
 pub fn mate_pairs(thorough: bool) -> usize {
@@ -79,17 +80,6 @@ fn mate_position(k: usize) -> Pos {
         out
     })[k]
         .clone()
-}
-
-/// Does `m` keep a forced mate in two (every reply can be answered by checkmate)?
-fn keeps_mate_in_two(pos: &Pos, m: super::super::refmodel::Mv) -> bool {
-    use super::super::refmodel::Solver;
-    let p2 = pos.make(m);
-    let replies = p2.legal_moves();
-    if replies.is_empty() {
-        return p2.in_check(p2.white);
-    }
-    replies.iter().all(|&r| !Solver::mating_moves(&p2.make(r)).is_empty())
 }
 
 fn mate_case(index: u64, thorough: bool) -> Option<(usize, u64)> {
@@ -319,6 +309,30 @@ pub fn check(plans: &[Plan], recs: &[RunRec]) -> Outcome {
                 ),
             ));
         }
+        if t.entries_from_unfinished_nodes > 0 {
+            let first = rec
+                .events
+                .iter()
+                .find_map(|e| match &e.k {
+                    EvK::TtEntryFromUnfinishedNode { key, score, depth, nodes, .. } if e.tid == tid => Some(format!(
+                        "first: key {key}, score {score}, depth {depth}, written after {nodes} nodes"
+                    )),
+                    _ => None,
+                })
+                .unwrap_or_default();
+            out.violations.push(Violation::new(
+                "cache_entry_from_unfinished_node",
+                format!(
+                    "go #{} ({:?}) in {}: {} cache entr{} still there at the end of the interrupted search had been written by a node that went on to search further moves of its own and was then closed by the interruption without writing again - an interim value computed from a part of the node's moves; {}",
+                    v.idx,
+                    v.text,
+                    v.pos.as_ref().map_or("?".into(), Pos::to_fen),
+                    t.entries_from_unfinished_nodes,
+                    if t.entries_from_unfinished_nodes == 1 { "y that was" } else { "ies that were" },
+                    first
+                ),
+            ));
+        }
         if changed > 0 || t.inserts_after_abort > 0 {
             out.violations.push(Violation::new(
                 "cache_write_after_interruption",
@@ -343,17 +357,28 @@ pub fn check(plans: &[Plan], recs: &[RunRec]) -> Outcome {
         if let (Some(pos), Some(b)) = (&later.pos, later.go.bestmoves.first()) {
             let mv = b.text.split_whitespace().nth(1).unwrap_or("");
             out.stats.inc(if cut { "reach.later_search_after_cut" } else { "later_search_after_completed_search" });
-            let ok = pos.find_uci(mv).is_some_and(|m| keeps_mate_in_two(pos, m));
-            if !ok && later.go.thread_ended {
+            // (a minimised script may have lost the position the family is about)
+            let c = super::c12::classify(pos);
+            if !c.m2 || c.m1 {
+                continue;
+            }
+            let verdict = pos
+                .find_uci(mv)
+                .map_or(("lost", "the move is not legal".to_string()), |m| super::c12::forced_mate_verdict(pos, m));
+            if verdict.0 == "unproven" {
+                out.stats.inc("inconclusive.later_search_followup_not_settled");
+            }
+            if verdict.0 == "lost" && later.go.thread_ended {
                 out.violations.push(Violation::new(
                     if cut { "later_search_misled" } else { "later_search_wrong_without_cut" },
                     format!(
-                        "in {} (forced mate in two by the rules) {:?} was {}, and the following {:?} then answered {:?}, which gives the forced mate away",
+                        "in {} (forced mate in two by the rules) {:?} was {}, and the following {:?} then answered {:?}, which gives the forced mate away: {}",
                         pos.to_fen(),
                         first.text,
                         if cut { "cut short by its node budget" } else { "completed" },
                         later.text,
-                        b.text
+                        b.text,
+                        verdict.1
                     ),
                 ));
             }
